@@ -61,7 +61,7 @@ MCLive2 == MCSpec /\ FairProto /\ \A f \in F : WF_mcvars(MCTick(f)) /\ WF_mcvars
 \* every step, as the code performs it, satisfies what X03 demands of a step
 StepOK ==
   /\ P_Monotone(st, st')
-  /\ (TrackLast /\ last'.a = "FRecv") => P_StaleDropped(st, st', last'.f, last'.w)
+  /\ (TrackLast /\ last'.a = "FRecv") => P_StaleDropped(st, st', last'.f, last'.w) /\ P_HWTaken(st, st', last'.f, last'.w)
   /\ TrackLast => IF "f" \in DOMAIN last' THEN P_Report(st, st', last'.a, last'.f) ELSE st'.rp = {}
 StepsOK == [][StepOK]_mcvars
 
